@@ -22,6 +22,7 @@ import (
 	"math"
 	"reflect"
 	"regexp"
+	"sort"
 	"strconv"
 	"strings"
 
@@ -586,7 +587,18 @@ func (v *VMValue) toStringRaw(ri *recursionInfo) string {
 
 		var items []string
 		dd, _ := v.ReadDictData()
+		// 按键排序输出: Range 的顺序是随机的(go map)，同一个值每次打印结果会不同
+		var keys []string
 		dd.Dict.Range(func(key string, value *VMValue) bool {
+			keys = append(keys, key)
+			return true
+		})
+		sort.Strings(keys)
+		for _, key := range keys {
+			value, ok := dd.Dict.Load(key)
+			if !ok {
+				continue
+			}
 			txt := value.toReprRaw(ri)
 			// txt := ""
 			// if value.TypeId == VMTypeArray {
@@ -597,8 +609,7 @@ func (v *VMValue) toStringRaw(ri *recursionInfo) string {
 			//	txt = value.ToRepr()
 			// }
 			items = append(items, fmt.Sprintf("'%s': %s", key, txt))
-			return true
-		})
+		}
 		return "{" + strings.Join(items, ", ") + "}"
 	case VMTypeFunction:
 		cd, _ := v.ReadFunctionData()
